@@ -1,6 +1,6 @@
 from . import session
 
-FAMILIES = [('spec', 1.0), ('specack', 0.4), ('disc', 0.3), ('solo', 0.3)]
+FAMILIES = [('spec', 1.0), ('specack', 0.4), ('disc', 0.3), ('solo', 0.3), ('specdisc', 0.6)]
 
 def main(ctx):
     session.run(ctx, "C06", FAMILIES, quick_count=100, thorough_count=4000, prop_mod=session.PROP_MODS.get("C06"))
